@@ -21,6 +21,19 @@ def tiers(quick_checks, thorough_checks, quick_budget=25, thorough_budget=420, c
     }
 
 PROPS = {
+    "C08": {
+        "tiers": tiers(3000, 120000),
+        "rule": "rapid-generated scenario: 0-6 registrations on one type (plain/context-aware, sync/Async, Sequential, filters; each may cancel the publish context on its k-th invocation), 1-5 consecutive publishes whose context is absent / live cancellable / already cancelled / a 5 ms deadline that expires inside a handler's simulated sleep, every subset of the four publish hooks (installed by option or by setter), optional Observability and interface-typed publish, + choice tape for async tasks. Fault = context cancellation (before the call, by a handler, by deadline). Every run is non-trivial; distinct = (scenario shape, schedule trace hash, history hash).",
+        "components": REAL_BUS,
+        "assumptions": COMMON_ASSUME + ["a synchronous handler counts as 'started after cancellation' only if the cancellation happened before the previous synchronous handler of that publish returned or before this handler's filter finished evaluating (the unavoidable check-then-call window is not flagged)"],
+    },
+    "C06": {
+        "tiers": tiers(2500, 100000),
+        "rule": "rapid-generated scenario: 1-4 registrations on two event types A and B (Async, or sync handlers that publish nested async work; handler bodies sleep 0-50 ms of simulated time; A-handlers may publish a B event from inside), a waiter task running 1-7 steps of publish / sleep / Wait / Shutdown(ctx: background, deadline 0-200 ms, already cancelled), 0-2 concurrent publisher tasks, store with Close / without Close / failing Close / no store, + choice tape (also decides Shutdown's select when both cases are ready). Non-trivial: at least one Wait or Shutdown call was made; distinct = (scenario shape, schedule trace hash, history hash).",
+        "components": dict(REAL_BUS, **{"event store": "harness stub counting Close calls"}),
+        "assumptions": COMMON_ASSUME + ["publish contexts stay live in this property's scenarios (cancellation is C08)", "'every processor count' is covered by the scheduler exploring interleavings directly rather than by varying GOMAXPROCS"],
+        "expect_probes": ["wait-called-with-async-work-pending"],
+    },
     "C07": {
         "tiers": tiers(3000, 120000),
         "rule": "rapid-generated scenario: 1-3 registrations on one event type (at least one Sequential; sync or Async), 1-4 publisher tasks each publishing 1-8 tagged events one after another, handler bodies that yield 1-5 times between their enter and exit marks, optionally publishing through an interface-typed value (reflection dispatch path), + choice tape. Non-trivial: >=1 decision point with >=2 ready tasks; distinct = (scenario shape, schedule trace hash, history hash).",
